@@ -138,6 +138,7 @@ type Sched struct {
 	envHash   uint64
 	idleOK    map[*Thread]bool
 	envs      []*envEvent
+	orderMode int // 0 sorted (default); 1 reversed; 2 rotated: used by engine B for whole-handler order deviations
 	delayMode bool // every non-default scheduling alternative costs one deviation (delay bounding)
 	frozen    bool // setup/teardown phase: default choice everywhere, nothing recorded, nothing explored
 }
@@ -765,6 +766,14 @@ func EnvEvent(name string, f func()) {
 	s := S
 	s.mu.Lock()
 	s.envs = append(s.envs, &envEvent{name: name, f: f})
+	s.mu.Unlock()
+}
+
+// SetOrderMode selects the map-iteration order for everything that follows (0 sorted, 1 reversed, 2 rotated).
+func SetOrderMode(m int) {
+	s := S
+	s.mu.Lock()
+	s.orderMode = m
 	s.mu.Unlock()
 }
 
